@@ -1312,3 +1312,20 @@ package gogu
 //@   invariant attempt > 0 ==> now - logt1(logn - 1) >= delay
 //@   invariant attempt == 0 ==> err == nil
 //@   invariant attempt > 0 ==> err == logr0(logn - 1, err)
+
+// ---------------------------------------------------------------- C17: Memoize (relative to the assumed contract of singleflight.Group.Do)
+
+//@ func (gogu.Memoizer).Memoize
+//@   property C17
+//@   calllog impure
+//@   requires fn != nil && m.group != nil && m.Cache != nil && m.Cache.cache != nil && m.Cache.items != nil && (forall k T :: { m.Cache.items[k] } k in m.Cache.items ==> m.Cache.items[k] != nil)
+//@   modifies map(m.Cache.items)
+//@   ensures old(key in m.Cache.items) && (old(m.Cache.items[key].expiration) <= 0 || now <= old(m.Cache.items[key].expiration)) ==> result0 == old(m.Cache.items[key]) && result1 == nil && logn == old(logn) && docount == old(docount) && (forall k T :: { m.Cache.items[k] } ((k in m.Cache.items) <==> old(k in m.Cache.items)) && m.Cache.items[k] == old(m.Cache.items[k]))
+//@   ensures docount <= old(docount) + 1 && logn <= old(logn) + 1
+//@   ensures (!old(key in m.Cache.items) || (old(m.Cache.items[key].expiration) > 0 && old(now) > old(m.Cache.items[key].expiration))) ==> docount == old(docount) + 1 && dokey == key
+//@   ensures docount == old(docount) ==> logn == old(logn)
+//@   ensures docount == old(docount) + 1 && doran ==> logn == old(logn) + 1 && logf(old(logn)) == fn && result0 == logr0(old(logn), result0) && result1 == logr1(old(logn), result1)
+//@   ensures docount == old(docount) + 1 && !doran ==> logn == old(logn) && (forall k T :: { m.Cache.items[k] } ((k in m.Cache.items) <==> old(k in m.Cache.items)) && m.Cache.items[k] == old(m.Cache.items[k]))
+//@   ensures docount == old(docount) + 1 && doran && result1 != nil ==> (forall k T :: { m.Cache.items[k] } ((k in m.Cache.items) <==> old(k in m.Cache.items)) && m.Cache.items[k] == old(m.Cache.items[k]))
+//@   ensures forall k T :: { m.Cache.items[k] } k != key ==> ((k in m.Cache.items) <==> old(k in m.Cache.items)) && m.Cache.items[k] == old(m.Cache.items[k])
+//@   ensures docount == old(docount) + 1 && doran && result1 == nil && !old(key in m.Cache.items) && result0 != nil && !isEmptyString(result0.object) ==> key in m.Cache.items && m.Cache.items[key].object == result0.object
